@@ -469,3 +469,28 @@ Proof.
   exists r. split; [exact R1|]. split; [exact R2|]. intros g' Hr.
   destruct (R3 g' Hr) as [Q1 Q2]. split; [exact Q1|]. intro Hs. apply Q2. right. exact Hs.
 Qed.
+
+(* ---- a payload's fmt impl = the sequence of write_str calls it makes: the regenerated write_str, iterated over
+   any chunking, refines the model's write_chunks ---- *)
+Fixpoint g_write_chunks (dbg : bool) (chunks : list (list N)) (g : gwriter) : M gwriter :=
+  match chunks with
+  | [] => ret g
+  | c :: t => g' <- g_IndentWriter_write_str dbg g c ;; g_write_chunks dbg t g'
+  end.
+
+Lemma src_write_chunks dbg chunks : forall g a, gw_inv g ->
+  exists r, g_write_chunks dbg chunks g a = (a, r) /\
+            map_res absw r = write_chunks dbg chunks (absw g) /\
+            (forall g', r = Ok g' -> gw_inv g').
+Proof.
+  induction chunks as [|c t IH]; intros g a Hinv.
+  - exists (Ok g). repeat split; auto. intros g' H. injection H as <-. exact Hinv.
+  - destruct (src_write_str_inv dbg g c a Hinv) as [r [Hr [Habs Hpost]]].
+    cbn [g_write_chunks write_chunks]. unfold bind. rewrite Hr.
+    destruct r as [g1|code|]; cbn [map_res] in Habs; rewrite <- Habs.
+    + destruct (Hpost g1 eq_refl) as [Hinv1 _].
+      destruct (IH g1 a Hinv1) as [r2 [Hr2 [Habs2 Hpost2]]].
+      exists r2. repeat split; auto.
+    + exists (Panic code). repeat split; auto. intros g' H; discriminate H.
+    + exists Diverge. repeat split; auto. intros g' H; discriminate H.
+Qed.
